@@ -107,7 +107,7 @@ def run_harnesses(harnesses, timeout_s=600, jobs=8, extra_args=()):
     for h in harnesses:
         cmd += ["--harness", h]
     hard = timeout_s * (1 + len(harnesses) // max(1, jobs)) + 900
-    rc, out, err, wall = run(cmd, cwd=KANI_DIR, timeout=hard, env=_env())
+    rc, out, err, wall = run(cmd, cwd=KANI_DIR, timeout=hard, env=_env(), limit_mem=True)
     if "Manual Harness Summary" not in out and "Complete -" not in out:
         tail = (out + "\n" + err)[-3000:]
         raise Undecided("cargo kani did not reach verification (build error or crash):\n" + tail)
